@@ -31,6 +31,13 @@ fn signal_of(c: &[i64], i: &mut usize) -> Option<Object> {
         3 => { let k = c[*i + 1]; *i += 2;
                Some(match k { 0 => Object::Motion(Motion::StopAll), 1 => Object::Motion(Motion::StraightDrive(100)),
                               2 => Object::Control(Control::HydraulicLock(false)), 3 => Object::Target(glonax::core::Target::from_point(300.0, 20.0, 100.0)),
+                              // module status reports of the units whose readings the director judges - faulty and healthy: a status
+                              // report is not a reading and changes no verdict
+                              5 => Object::ModuleStatus(glonax::core::ModuleStatus::faulty("volvo:d7e:0x0:0x27".into(), glonax::core::ModuleError::CommunicationTimeout)),
+                              6 => Object::ModuleStatus(glonax::core::ModuleStatus::faulty("k\u{fc}bler:inclinometer:0x7A:0x27".into(), glonax::core::ModuleError::CommunicationTimeout)),
+                              7 => Object::ModuleStatus(glonax::core::ModuleStatus::faulty("k\u{fc}bler:encoder:0x6A:0x27".into(), glonax::core::ModuleError::GenericCommunicationError)),
+                              8 => Object::ModuleStatus(glonax::core::ModuleStatus::faulty("j1939:ecm:0x0:0x27".into(), glonax::core::ModuleError::IOError)),
+                              9 => Object::ModuleStatus(glonax::core::ModuleStatus::healthy("volvo:d7e:0x0:0x27".into())),
                               _ => Object::ModuleStatus(glonax::core::ModuleStatus::healthy("x:y:0x1:0x2".into())) }) }
         _ => None,
     }
@@ -107,7 +114,7 @@ pub fn gen(o: &Opts, sink: &mut dyn FnMut(Vec<i64>, String)) {
                     2 => c.extend([1, rng.below(4000) as i64]),
                     3 | 4 => { let (r, p) = if rng.chance(1, 2) { (roll_angle(&mut rng), 0) } else { (roll_angle(&mut rng), angle(&mut rng)) }; c.extend([2, *rng.pick(&[0x7ai64, 0x6a, 0x6b]), r, p, 1]); }
                     5 => c.extend([2, 0x7a, 0, 0, 1]),
-                    _ => c.extend([3, rng.below(5) as i64]),
+                    _ => c.extend([3, rng.below(10) as i64]),
                 }
             }
             let _ = j;
@@ -127,7 +134,7 @@ pub fn gen(o: &Opts, sink: &mut dyn FnMut(Vec<i64>, String)) {
                 2 => c.extend([1, rng.below(4000) as i64]),
                 3 => { let a = roll_angle(rng); c.extend([2, 0x7a, a, 0, 1]); }
                 4 => c.extend([2, *rng.pick(&[0x6ai64, 0x6b]), angle(rng), 0, 1]),
-                _ => c.extend([3, rng.below(5) as i64]),
+                _ => c.extend([3, rng.below(10) as i64]),
             };
             let groups = 2 + rng.below(4);
             for gi in 0..groups { for _ in 0..(if gi % 2 == 0 { 3 } else { g }) { sig(&mut rng, &mut c); } }
@@ -141,7 +148,7 @@ pub fn gen(o: &Opts, sink: &mut dyn FnMut(Vec<i64>, String)) {
     for (pi, p) in priors.iter().enumerate() {
         for rpm in (0..=65535i64).step_by(step).chain([899, 900, 901, 2199, 2200, 2201, 65535]) {
             if !o.tier_thorough && pi > 0 && rpm % 3 != 0 && !(2190..2210).contains(&rpm) { continue; }
-            put!({ let mut c = p.clone(); c.extend([1, rpm, 3, rpm % 5]); c });
+            put!({ let mut c = p.clone(); c.extend([1, rpm, 3, rpm % 10]); c });
         }
     }
     // rotation readings from every source x roll/pitch grid x yaw class, followed by another signal
@@ -152,7 +159,7 @@ pub fn gen(o: &Opts, sink: &mut dyn FnMut(Vec<i64>, String)) {
         for r in (-357..=357i64).step_by(g) { for p in (-177..=177i64).step_by(if o.tier_thorough { 3 } else { 12 }) {
             let (mut rr, mut pp) = (r * 50, p * 50);
             for t in [3500i64, 4500, 6000, -4500, -4000] { if rr == t { rr += 50; } if pp == t { pp += 50; } }
-            put!(vec![2, src, rr, pp, if (r + p) % 7 == 0 { 0 } else { 1 }, 3, rng.below(5) as i64]);
+            put!(vec![2, src, rr, pp, if (r + p) % 7 == 0 { 0 } else { 1 }, 3, rng.below(10) as i64]);
         } }
     }
     // all histories of length <= 3 over 12 classes; random histories up to length 100
@@ -161,7 +168,7 @@ pub fn gen(o: &Opts, sink: &mut dyn FnMut(Vec<i64>, String)) {
         3 => vec![2, 0x7a, 4600 + rng.below(130) as i64 * 100, angle(rng).min(8800), 1], 4 => vec![2, 0x7a, angle(rng).min(4400), angle(rng).min(4400), 1],
         5 => vec![2, 0x7a, roll_angle(rng), 5000, 1], 6 => vec![2, 0x6b, 0, 7000, 1], 7 => vec![2, 0x6c, 0, angle(rng), 1],
         8 => vec![2, rng.below(256) as i64, 6000 + rng.below(20) as i64 * 100, 0, 1], 9 => vec![2, 0x7a, 6000, 6000, 0],
-        10 => vec![3, rng.below(5) as i64], _ => vec![2, 0x6a, 0, 0, 1] } };
+        10 => vec![3, rng.below(10) as i64], _ => vec![2, 0x6a, 0, 0, 1] } };
     let depth = 3;
     for d in 1..=depth { for h in 0..12u64.pow(d) {
         let mut c = Vec::new(); let mut x = h;
